@@ -3,9 +3,10 @@
    encoding spec) and Model/ProtoGlue.v (src/protobuf/encode.rs and parse.rs: convert_value_raw, convert_value,
    encode_message, proto_to_value; `shaped`, `strip_defaults`).  Nothing but statements here. *)
 From Coq Require Import String.
-From Coq Require Import List NArith ZArith Bool Arith.
+From Coq Require Import List NArith ZArith Bool Arith Lia.
 From VRL Require Import Base.Bytes Base.Value Base.Lit Model.Proto Model.ProtoGlue
-     Proofs.ProtoWireProofs Proofs.ProtoScalarProofs Proofs.ProtoMsgProofs Proofs.ProtoGlueProofs.
+     Proofs.ProtoWireProofs Proofs.ProtoScalarProofs Proofs.ProtoMsgProofs Proofs.ProtoGlueProofs
+     Proofs.ProtoShapedProofs.
 Import ListNotations.
 
 (* ---- wire primitives: closed, every value of the type ---- *)
@@ -81,3 +82,73 @@ Theorem C26_parse_canon : forall (P : list (list field)),
   ptv_msg P fuel d (canon P fuel d m) = ptv_msg P fuel d m.
 Proof. exact ptv_canon. Qed.
 Print Assumptions C26_parse_canon.
+
+(* encode_message on a message-shaped value: succeeds, is well-typed as soon as the sizes fit, and proto_to_value of
+   the result is the value without its default-holding fields *)
+Theorem C26_convert_shaped : forall (P : list (list field)) (lossy : bool),
+  pool_okb P = true ->
+  forall (fu : nat) (d : list field) (v : value),
+  desc_okb d = true -> shaped_msg P fu d v = true ->
+  exists m, conv_msg P lossy fu d v = POk m
+            /\ (lens_msg P fu d m -> wt_msg P fu d m)
+            /\ ptv_msg P fu d m = POk (strip_msg P fu d v).
+Proof. exact conv_shaped. Qed.
+Print Assumptions C26_convert_shaped.
+
+(* ---- the property: for a descriptor pool satisfying the (decidable) structural conditions prost-reflect guarantees
+        (pool_okb: increasing field numbers below 2^29, distinct names, message fields have presence, packed only for
+        packable kinds, scalar map keys) and any value shaped like a message type (scalars in range, exact f32 values in
+        float fields, UTF-8 strings, enums by their canonical name, repeated fields, maps with canonical keys, nested
+        messages to any depth up to prost's recursion limit):
+          parse_proto (encode_proto v) = strip_defaults v
+        The one side condition is physical: every length prefix the encoder writes fits 64 bits (lens_msg). ---- *)
+Theorem C26_message : forall (P : list (list field)) (lossy : bool),
+  pool_okb P = true ->
+  forall (d : list field) (v : value),
+  desc_okb d = true -> shaped P d v = true ->
+  exists m, conv_msg P lossy glue_fuel d v = POk m
+            /\ encode_proto P lossy d v = POk (encode_msg P d m)
+            /\ (lens_msg P glue_fuel d m -> parse_proto P d (encode_msg P d m) = POk (strip_defaults P d v)).
+Proof. exact message_roundtrip. Qed.
+Print Assumptions C26_message.
+
+(* ---- the hypotheses hold on a bundled descriptor set (tests/data/protobuf/test/v1/test.desc as prost-reflect reads
+        it; the check re-evaluates pool_okb on all four sets at run time), and the theorem applies to a value with a map,
+        a nested message and a default-holding field ---- *)
+Definition test_v1_pool : list (list field) := [
+  [mkField (hx "7365636f6e6473") 1 KInt64 (CSingular false); mkField (hx "6e616e6f73") 2 KInt32 (CSingular false)];
+  [mkField (hx "693332") 1 KInt32 (CSingular false); mkField (hx "693634") 2 KInt64 (CSingular false); mkField (hx "753332") 3 KUint32 (CSingular false); mkField (hx "753634") 4 KUint64 (CSingular false)];
+  [mkField (hx "64") 1 KDouble (CSingular false); mkField (hx "66") 2 KFloat (CSingular false)];
+  [mkField (hx "74657874") 1 KString (CSingular false); mkField (hx "62696e617279") 2 KBytes (CSingular false)];
+  [mkField (hx "62") 1 KBool (CSingular false)];
+  [mkField (hx "6e616d6573") 1 KInt32 (CMap KString false false); mkField (hx "70656f706c65") 2 (KMsg 6) (CMap KString false true)];
+  [mkField (hx "6e69636b6e616d65") 1 KString (CSingular false); mkField (hx "616765") 2 KUint32 (CSingular false)];
+  [mkField (hx "6b6579") 1 KString (CSingular false); mkField (hx "76616c7565") 2 KInt32 (CSingular false)];
+  [mkField (hx "6b6579") 1 KString (CSingular false); mkField (hx "76616c7565") 2 (KMsg 6) (CSingular true)];
+  [mkField (hx "627265616b66617374") 1 (KEnum [((hx "46525549545f4150504c455f554e535045434946494544"), (0)%Z); ((hx "46525549545f4f4c495645"), (1)%Z); ((hx "46525549545f544f4d41544f"), (2)%Z)]) (CSingular false); mkField (hx "6c756e6368") 2 (KEnum [((hx "46525549545f4150504c455f554e535045434946494544"), (0)%Z); ((hx "46525549545f4f4c495645"), (1)%Z); ((hx "46525549545f544f4d41544f"), (2)%Z)]) (CSingular false); mkField (hx "64696e6e6572") 3 (KEnum [((hx "46525549545f4150504c455f554e535045434946494544"), (0)%Z); ((hx "46525549545f4f4c495645"), (1)%Z); ((hx "46525549545f544f4d41544f"), (2)%Z)]) (CSingular false)];
+  [mkField (hx "6d6f726e696e67") 1 (KMsg 0) (CSingular true)];
+  [mkField (hx "6e756d62657273") 1 KInt64 (CRepeated true)];
+  [mkField (hx "6d65737361676573") 1 (KMsg 13) (CRepeated false)];
+  [mkField (hx "74657874") 1 KString (CSingular true); mkField (hx "696e646578") 2 KUint32 (CSingular true)]
+].
+
+Definition example_value : value :=
+  VObj [(hx "6e616d6573", VObj [(hx "61", VInt 0); (hx "62", VInt 2)]);
+        (hx "70656f706c65", VObj [(hx "78", VObj [(hx "616765", VInt 0); (hx "6e69636b6e616d65", VBytes (hx "6e"))])])].
+
+Example C26_nonvacuous :
+  pool_okb test_v1_pool = true
+  /\ shaped test_v1_pool (get_msg test_v1_pool 5) example_value = true
+  /\ (exists m, conv_msg test_v1_pool true glue_fuel (get_msg test_v1_pool 5) example_value = POk m
+                /\ lens_msg test_v1_pool glue_fuel (get_msg test_v1_pool 5) m)
+  /\ strip_defaults test_v1_pool (get_msg test_v1_pool 5) example_value
+     = VObj [(hx "6e616d6573", VObj [(hx "61", VInt 0); (hx "62", VInt 2)]);
+             (hx "70656f706c65", VObj [(hx "78", VObj [(hx "6e69636b6e616d65", VBytes (hx "6e"))])])]
+  /\ encode_proto test_v1_pool true (get_msg test_v1_pool 5) example_value
+     = POk (hx "0a030a01610a050a0162100212080a017812030a016e").
+Proof.
+  split; [vm_compute; reflexivity|]. split; [vm_compute; reflexivity|]. split.
+  - eexists. split; [vm_compute; reflexivity|].
+    cbn. repeat (constructor || split); unfold len_ok; cbn; lia.
+  - split; vm_compute; reflexivity.
+Qed.
